@@ -193,6 +193,27 @@ CLAIMS.update({
     ),
 })
 
+
+# clauses added after the independently seeded changes and benign refactorings (DESIGN.md section 10)
+ADDED = {
+    "C01": " Also decided: the SAT solver handed to an encoding call is created inside every loop that contains the call (no component is encoded on top of another); a range-based maximal-extension computer always runs on a solver filled by encode_constraints_and_range; nothing reachable from the stage solver's single-extension method uses an admissibility-based computation.",
+    "C02": " Also decided (scoped to what the credulous entry points can reach, with their constant flags followed into helpers): an argument turned into a SAT literal belongs to the framework that was encoded; fresh solver per encoding; range search on a range encoding; the stage solver is conflict-free based; every listed argument is considered (no early `break`, no loop-carried switch-off).",
+    "C03": " Also decided (scoped to what the skeptical entry points can reach): literal provenance, fresh solver per encoding, range search on a range encoding, stage layering, every listed argument considered.",
+    "C04": " Also decided: certificate completion of the range-based solvers uses the range encoding; the dynamic solvers' answer caches (which hold the certificates) are invalidated by every update variant.",
+    "C05": " Also decided: a command line rejected by clap returns Ok only for a help/version request; the answer grammar is decided as a language inclusion on the extracted output language of each writer method (F13), with no bare Write::write.",
+    "C07": " Also decided: an accumulating loop over the query list is never left early, and the per-component selection of listed arguments is not switched off by a flag set in an earlier iteration.",
+    "C08": " Also decided: a query reads only the cache of its own kind; the guarded clauses issued when an argument is re-encoded by the selector-based encoder have exactly the shapes of the static complete / stable encodings (F12), with the attacker ids of iter_attacks_to(argument).",
+    "C09": " Also decided: the freshness test guarding the encoder tables is a by-label look-up or ONE counting function compared before/after; the cache barriers and log/replay obligations of C08; index-pairing of the framework store.",
+    "C11": " Also decided: literal provenance across component frameworks; the grounded propagation counts stored attacks with the same multiplicity when it initialises and when it decrements its counters.",
+    "C12": " Also decided: an entry is removed from a per-argument index list at the position found by searching that same list.",
+    "C14": " Also decided: the output language of write_framework equals (arg(L).\\n)*(att(L,L).\\n)* (F13), declarations are written in iterator order with nothing filtered or sorted, and no writer uses a bare Write::write.",
+    "C15": " Also decided: the integer fields n_vars() is computed from are only ever raised (max / increment / guarded store).",
+    "C16": " Also decided: the waiting thread never feeds the child's stdin itself before the piped stdout is drained.",
+    "C18": " Also decided: the stored model is replaced together with the stored set, from the same SAT answer; a query method delegates to at most one other query method per path.",
+}
+for _k, _v in ADDED.items():
+    CLAIMS[_k]["text"] += _v
+
 NOT_APPLICABLE = {
     "C19": "Merged arguments being indistinguishable under complete semantics is a semantic fact about a propagation algorithm over all graphs; "
     "no structural necessary condition of value remains for a static rule (DESIGN.md section 4/C19).",
@@ -238,7 +259,7 @@ def main():
         },
         "engines": [
             {"name": "mirfacts", "path": "tools/mirfacts", "serves_properties": sorted(CLAIMS), "kind_free_text": "rustc_private driver dumping resolved MIR/ADT/impl facts as JSON (injected with RUSTC_WORKSPACE_WRAPPER under cargo +nightly check)"},
-            {"name": "relang", "path": "tools/relang", "serves_properties": ["C13", "C14"], "kind_free_text": "regex-automata based decision of inclusion / disjointness of regular languages (dense DFA product, all strings), with shortest witnesses"},
+            {"name": "relang", "path": "tools/relang", "serves_properties": ["C05", "C13", "C14"], "kind_free_text": "regex-automata based decision of inclusion / disjointness of regular languages (dense DFA product, all strings), with shortest witnesses"},
             {"name": "sa", "path": "sa", "serves_properties": sorted(CLAIMS), "kind_free_text": "Python rule engine: CFG, dominators, def-use/origin tracing, call graph, per-property rules"},
         ],
         "checks": checks,
